@@ -66,6 +66,9 @@ def fail_case(case, why):
     if p:
         with open(p, "w") as f:
             json.dump(dict(property=os.environ.get("VERIF_PROP", ""), why=why, case=case), f, indent=1)
+        if STATS.failures == 1:  # the case as generated (a shrunk schedule-dependent case may fail only rarely: the driver's fall-back)
+            with open(p + ".first", "w") as f:
+                json.dump(dict(property=os.environ.get("VERIF_PROP", ""), why=why, case=case), f, indent=1)
 
 
 def read_case(path):
